@@ -192,6 +192,16 @@ def run(ctx: Ctx) -> None:
         for k, st in enumerate(storages):
             rjobs.append({"tdesc": sc["desc"], "inputs": sc["inputs"], "storage": st,
                           "kinds": {n: ("list" if k % 2 else "ndarray") for n, _ in sc["inputs"]}})
+    # a producer WITHOUT a MapSpec whose rank-2 array is indexed by two mapped consumers naming different axes: the MapSpec
+    # pipefunc generates must denote what the stated generator MapSpec denotes - in every listing order of the functions
+    import itertools
+    sc, _, _ = c06.export(ctx, "autogen")
+    base_pd = pmap.tla_desc_to_py(sc["desc"])
+    for k, perm in enumerate(itertools.permutations(range(3))):
+        for hide in (True, False):
+            pd = {"funcs": [dict(base_pd["funcs"][i], hide_ms=(hide and base_pd["funcs"][i]["name"] == "f")) for i in perm]}
+            rjobs.append({"tdesc": {"funcs": [sc["desc"]["funcs"][i] for i in perm]}, "pdesc": pd, "inputs": sc["inputs"],
+                          "storage": storages[k % 3], "kinds": {"__via__": "map"} if hide else {}})
     rtraces = run_jobs(rjobs)
     for t in rtraces:
         ctx.case({"d": t["desc"], "i": t["inputs"], "s": t["storage"]}, nontrivial(t))
